@@ -56,6 +56,7 @@ class SysCase:
     role_variant: int = 0                        # which role table the household entity is built with (ROLE_VARIANTS); role
                                                  # indices always refer to the entity's FLATTENED roles
     params: list = field(default_factory=list)   # dated parameters: params[i] = [(start ordinal, value), ...]
+    pnames: list = field(default_factory=list)   # names of the parameters (default: p<i> / g.p<i>)
     outputs: list = field(default_factory=list)  # `calculate_output` attribute of each variable: 0 none, 1 calculate_output_add, 2 ..._divide
 
 
@@ -80,6 +81,14 @@ def expr_tokens(e) -> list:
     raise ValueError(e)
 
 
+def var_tokens(v: "Var", ns: bool) -> list:
+    t = [str(v.entity), v.vtype, v.unit, str(v.dflt), "1" if v.neutralized else "0",
+         "-" if v.end is None else str(v.end), "1" if ns else "0", "F", str(len(v.formulas))]
+    for start, e in v.formulas:
+        t += [str(start)] + expr_tokens(e)
+    return t
+
+
 def to_line(c: SysCase, no_store_override=None) -> str:
     roles = list(getattr(c, "roles", None) or [])
     t = (["sim", "P", str(c.nP), "G", str(c.nG), "M"] + [str(m) for m in c.mem]
@@ -95,11 +104,7 @@ def to_line(c: SysCase, no_store_override=None) -> str:
         t += ["OUT", str(len(outputs))] + [str(k) for k in outputs]
     t += ["V", str(len(c.vars))]
     for i, v in enumerate(c.vars):
-        ns = v.no_store if no_store_override is None else no_store_override(i, v)
-        t += [str(v.entity), v.vtype, v.unit, str(v.dflt), "1" if v.neutralized else "0",
-              "-" if v.end is None else str(v.end), "1" if ns else "0", "F", str(len(v.formulas))]
-        for start, e in v.formulas:
-            t += [str(start)] + expr_tokens(e)
+        t += var_tokens(v, v.no_store if no_store_override is None else no_store_override(i, v))
     t += ["I", str(len(c.inputs))]
     for v, tok, vals in c.inputs:
         t += [str(v), tok] + [str(x) for x in vals]
@@ -107,6 +112,9 @@ def to_line(c: SysCase, no_store_override=None) -> str:
     for r in c.reqs:
         if r[0] == "set":
             t += ["set", str(r[1]), r[2]] + [str(x) for x in r[3]]
+        elif r[0] == "repl":
+            ns = r[2].no_store if no_store_override is None else no_store_override(r[1], r[2])
+            t += ["repl", str(r[1])] + var_tokens(r[2], ns)
         else:
             t += [r[0]] + [str(x) for x in r[1:]]
     return " ".join(t)
@@ -254,9 +262,17 @@ class _Ctx:
         self.parameters_at = None      # the `parameters` callable handed to the formula being run
 
 
-def param_name(i: int) -> str:
-    """parameter i: top-level `p<i>`, or (odd i) `g.p<i>` inside a node"""
+def param_name(i: int, case=None) -> str:
+    """parameter i: the name the case gives it (`pnames`), else top-level `p<i>`, or (odd i) `g.p<i>` inside a node"""
+    names = list(getattr(case, "pnames", None) or [])
+    if i < len(names):
+        return names[i]
     return f"g.p{i}" if i % 2 else f"p{i}"
+
+
+# keys that are also attributes of objects standing in for a parameter node (the tracing proxy keeps `tracer` and
+# `parameter_node_at_instant`; a change that gives it `name` / `period` would shadow these keys when read by attribute)
+PARAM_KEYS = ["g.period", "period", "g.key", "g.value", "g.tracer", "g.parameter_node_at_instant"]      # (a key `name` clobbers ParameterNode.name at HEAD: reported, not generated)
 
 
 def _read_param(ctx: "_Ctx", i: int, q):
@@ -264,7 +280,7 @@ def _read_param(ctx: "_Ctx", i: int, q):
     h = (i + len(ctx.case.vars)) % 3
     arg = q if h == 0 else (q.start if h == 1 else str(q.start))
     node = ctx.parameters_at(arg)
-    for part in param_name(i).split("."):
+    for part in param_name(i, ctx.case).split("."):
         node = getattr(node, part) if (i + h) % 2 == 0 else node[part]
     return node
 
@@ -405,7 +421,8 @@ def build_system(case: SysCase, ctx: _Ctx | None = None):
     tbs = taxbenefitsystems.TaxBenefitSystem([person, household])
     E5 = Enum("E5", {f"m{i}": f"m{i}" for i in range(ENUM_SIZE)})
     vt = {"int": int, "float": float, "bool": bool, "enum": Enum, "date": dt.date, "str": str}
-    for i, v in enumerate(case.vars):
+    def make_class(i, v):
+        """the Variable class of declaration `v` for variable number i (also used to REPLACE a variable in the live system)"""
         attrs = dict(value_type=vt[v.vtype], entity=person if v.entity == 0 else household,
                      definition_period=DateUnit(v.unit))
         if v.vtype == "enum":
@@ -482,7 +499,10 @@ def build_system(case: SysCase, ctx: _Ctx | None = None):
                 elif d.day == 1 and (i + j) % 3 == 1:
                     fname = f"formula_{d.year}_{d.month:02d}"
             attrs[fname] = formula
-        tbs.add_variable(type(f"v{i}", (variables.Variable,), attrs))
+        return type(f"v{i}", (variables.Variable,), attrs)
+    ctx.make_class = make_class
+    for i, v in enumerate(case.vars):
+        tbs.add_variable(make_class(i, v))
     for i, v in enumerate(case.vars):
         if v.neutralized:
             tbs.neutralize_variable(f"v{i}")
@@ -493,7 +513,7 @@ def build_system(case: SysCase, ctx: _Ctx | None = None):
         for i, tbl in enumerate(params):
             leaf = {"values": {dt.date.fromordinal(st).isoformat(): {"value": val} for st, val in tbl}}
             node = data
-            parts = param_name(i).split(".")
+            parts = param_name(i, case).split(".")
             for part in parts[:-1]:
                 node = node.setdefault(part, {})
             node[parts[-1]] = leaf
@@ -725,6 +745,14 @@ def run_real(case: SysCase, configure=None, after_request=None, on_reads=None, s
             continue
         if r[0] == "reads":
             outs.append(on_reads(sim) if on_reads else "T:?")
+            continue
+        if r[0] == "repl":
+            # the declaration of a variable is replaced in the LIVE system (the cause of a failure is removed by
+            # correcting the formula); values already stored stay
+            tbs.replace_variable(ctx.make_class(r[1], r[2]))
+            case = derive(case, vars=[(r[2] if j == r[1] else w) for j, w in enumerate(case.vars)])
+            ctx.case = case
+            outs.append("-")
             continue
         if r[0] == "badp":
             # a period text that cannot be parsed: an error, and the simulation is as before
@@ -1214,7 +1242,14 @@ def gen_case(rng, kind="ranked", msl=1, nreq=None, fault_ids=None, bad_rate=0.0,
     outputs = []
     if features and "requests" in features:
         outputs = [(rng.choice([0, 0, 1, 2]) if v.vtype in ("int", "float", "bool") and v.unit != "eternity" else 0) for v in vars_]
-    return SysCase(nP, nG, mem, msl, vars_, inputs, reqs, roles=roles, params=params, outputs=outputs)
+    pnames = []
+    if params and rng.random() < 0.5:
+        # half of the parameter trees use keys that collide with attribute names of node-like objects
+        first = rng.choice(["g.period", "period"])
+        keys = ([first] + rng.sample([k for k in PARAM_KEYS if k != first], len(PARAM_KEYS) - 1))[:len(params)]
+        rng.shuffle(keys)
+        pnames = [(keys[i] if rng.random() < 0.7 else param_name(i)) for i in range(len(params))]
+    return SysCase(nP, nG, mem, msl, vars_, inputs, reqs, roles=roles, params=params, outputs=outputs, pnames=pnames)
 
 
 def gen_values(rng, v: Var, n: int) -> list:
